@@ -701,7 +701,7 @@ fn c09_despite_method_gets_a_body_writer() {
 // C10 — verdict helpers (by reference) and the construction-time push sites
 // =====================================================================================
 
-//@ props: C10
+//@ props: C10 C15
 //@ tier: quick
 //@ unwind: 6
 //@ timeout: 600
@@ -1085,8 +1085,8 @@ fn c15_redirect_case(mi: usize, code: u16, same_host_policy: bool) {
 //@ props: C15 C13 C09
 //@ tier: off
 //@ unwind: 6
-//@ unwindset: memcmp=16 from_static=8 from_fn=6 from_bytes=16 parse_hdr=16 eq_ignore_ascii_case=18 3all5check=18 to_str=6
-//@ timeout: 1800
+//@ unwindset: memcmp=16 from_static=8 from_fn=6 from_bytes=20 parse_hdr=20 FnvHasher=20 extend_with=10 eq_ignore_ascii_case=18 3all5check=18 to_str=6
+//@ timeout: 2400
 //@ mem: 24
 //@ encodes: Flow::<Redirect>::as_new_flow (method selection, policy, unset list), StatusExt::is_redirect_retaining_status, MethodExt::need_request_body, AmendedRequest::take_request/set_uri/unset_header, Flow::<Prepare>::new, can_redirect_auth_header
 //@ stubs_note: AmendedRequest::new_uri_from_location replaced by a stub returning the URI "/" (url crate out of reach; C14 not claimed)
@@ -1543,4 +1543,72 @@ fn c16_added_header_survives_despite_method() {
     assert!(first_is_cookie, "C16/caller-added-headers-first-in-order");
     kani::cover!(true, "reached");
     core::mem::forget(holder);
+}
+
+// ---------------------------------------------------------------- C15: redirects that are NOT followed / cannot be followed
+
+fn c15_not_followed_case(mi: usize, code_fixed: u16) {
+    let code: u16 = kani::any();
+    kani::assume(code == code_fixed);
+    let status = StatusCode::from_u16(code).unwrap();
+    let call: Call<crate::client::call::state::RecvBody, ()> =
+        ch::mk_call_req(ah::mk_request(mi, 2), 4, 0, bh::mk_writer_none(), Some(BodyReader::NoBody), true);
+    let holder = CallHolder::RecvBody(call);
+    let mut flow: Flow<(), Redirect> =
+        mk_flow(mk_inner(holder, &no_reasons(), false, false, Some(status), Some(HeaderValue::from_static("/y"))));
+    let policy = if kani::any() { RedirectAuthHeaders::SameHost } else { RedirectAuthHeaders::Never };
+    let r = flow.as_new_flow(policy);
+    assert!(matches!(r, Ok(None)), "C15/307-308-not-followed-for-body-methods-and-delete");
+    assert!(flow.status() == status, "C15/redirect-reports-status");
+    // the redirect state stays usable: it can still proceed to cleanup
+    assert!(holder_kind(&flow.inner.call) == 3, "C09/not-followed-redirect-keeps-its-call");
+    kani::cover!(true, "cell-reached");
+    core::mem::forget(r);
+    core::mem::forget(flow);
+}
+
+//@ props: C15 C09
+//@ tier: quick
+//@ unwind: 6
+//@ unwindset: memcmp=16 from_static=8 to_str=6
+//@ timeout: 1200
+//@ mem: 24
+//@ encodes: Flow::<Redirect>::as_new_flow (paths that return before a new flow is built), StatusExt::is_redirect_retaining_status, MethodExt::need_request_body, Flow::<Redirect>::status
+//@ stubs_note: AmendedRequest::new_uri_from_location replaced by a stub returning the URI "/" (url crate out of reach; C14 not claimed)
+//@ vars: concrete per harness: (method, status) in {POST, PUT, PATCH, DELETE} x {307, 308}; symbolic: auth policy
+//@ bounds: the eight (method, status) pairs for which the table says "do not follow"
+//@ outside: followed redirects (method rewriting to GET / HEAD): building the new flow does not finish under CBMC (8.8)
+//@ clause: for 307 and 308 the redirect is not followed at all when the method carries a request body (POST, PUT, PATCH) or is DELETE; the redirect state reports its status and stays usable
+#[kani::proof]
+#[kani::stub(crate::client::amended::AmendedRequest::new_uri_from_location, p_new_uri_from_location)]
+fn c15_not_followed_post_307() {
+    c15_not_followed_case(2, 307);
+}
+
+//@ like: c15_not_followed_post_307
+#[kani::proof]
+#[kani::stub(crate::client::amended::AmendedRequest::new_uri_from_location, p_new_uri_from_location)]
+fn c15_not_followed_put_308() {
+    c15_not_followed_case(3, 308);
+}
+
+//@ like: c15_not_followed_post_307
+#[kani::proof]
+#[kani::stub(crate::client::amended::AmendedRequest::new_uri_from_location, p_new_uri_from_location)]
+fn c15_not_followed_patch_307() {
+    c15_not_followed_case(8, 307);
+}
+
+//@ like: c15_not_followed_post_307
+#[kani::proof]
+#[kani::stub(crate::client::amended::AmendedRequest::new_uri_from_location, p_new_uri_from_location)]
+fn c15_not_followed_delete_308() {
+    c15_not_followed_case(4, 308);
+}
+
+//@ like: c15_not_followed_post_307
+#[kani::proof]
+#[kani::stub(crate::client::amended::AmendedRequest::new_uri_from_location, p_new_uri_from_location)]
+fn c15_not_followed_delete_307() {
+    c15_not_followed_case(4, 307);
 }
